@@ -22,6 +22,7 @@ import (
 	"github.com/massnetorg/mass-core/wire"
 	"massnet.org/mass/config"
 	"massnet.org/mass/poc/wallet/keystore"
+	"massnet.org/mass/poc/wallet/keystore/wordlists"
 	"massnet.org/mass/poc/wallet/keystore/hdkeychain"
 	"verifharness/hx"
 )
@@ -609,6 +610,13 @@ func main() {
 	}
 	for _, l := range []int{0, 15, 17, 33, 36, 64} {
 		g.mnemonicStep(g.bytes(l))
+	}
+	// the other word lists: switch (after look-ups under the previous list have happened), encode and decode again
+	for _, wlist := range [][]string{wordlists.Spanish, wordlists.Japanese, wordlists.French, wordlists.English} {
+		keystore.SetWordList(wlist)
+		for _, l := range []int{16, 24, 32} {
+			g.mnemonicStep(g.bytes(l))
+		}
 	}
 	// word list: 2048 distinct, whitespace-free words (assumption of the index-level mnemonic model)
 	wl := keystore.GetWordList()
